@@ -1128,11 +1128,10 @@ where
             Some(x) => x, // TODO resolve the path right away
             _ => {
                 // fallback to using the path directly
-                metadata(&path2)
+                let filetime = metadata(&path2)
                     .map(|attr| FileTime::from_last_modification_time(&attr))
-                    .ok()
-                    .map(move |filetime| (path2, filetime))
-                    .expect("Must contain sane data, otherwise mtime is not avail")
+                    .with_context(|| format!("cannot stat compiler {:?}", path2))?;
+                (path2, filetime)
             }
         };
 
